@@ -1,8 +1,361 @@
-//! C09 — generator and driver of the real API.
+//! C09 — approximate matchers and distance functions.
+//!
+//! `my <s|l> <w> <new|bld> <pattern> <amb> <wild> <op>/<op>/…`   one Myers object, operations in turn:
+//!        `f:<k>:<text>` find_all_end → `j:d,j:d,…`   `d:<text>` distance → `n`   `b:<text>` find_best_end → `j:d`
+//!        (an operation that panics is printed as `P`)
+//! `uk <unit|tab:<s>:<digits>> <cap> <k>:<pattern>:<text>/…`      one Ukkonen object, searches in turn → `j:d,…/…`
+//! `dist <ham|lev|sham|slev|blev> <a> <b> <k>`                    → `n` | `none`
+#[path = "c09_util.rs"]
+pub mod mu;
+
 use crate::util::*;
+use bio::alignment::distance;
+use bio::pattern_matching::ukkonen::{unit_cost, Ukkonen};
+use std::panic::{catch_unwind, AssertUnwindSafe};
 
-pub fn gen(_tier: &str, _rng: &mut Rng, _out: &mut Vec<String>) {}
+fn show_pairs(v: &[(usize, usize)]) -> String {
+    if v.is_empty() {
+        "-".into()
+    } else {
+        v.iter().map(|(j, d)| format!("{}:{}", j, d)).collect::<Vec<_>>().join(",")
+    }
+}
 
-pub fn exec(_toks: &[&str]) -> Result<String, String> {
-    Err("unimplemented".into())
+fn sprinkle(rng: &mut Rng, t: &mut Vec<u8>, extra: &[u8]) {
+    if extra.is_empty() {
+        return;
+    }
+    for x in t.iter_mut() {
+        if rng.chance(1, 12) {
+            *x = *rng.pick(extra);
+        }
+    }
+}
+
+fn gen_my(rng: &mut Rng, out: &mut Vec<String>, i: usize) {
+    let simple = i % 2 == 0;
+    let w = mu::word_sizes()[(i / 2) % 4];
+    let alpha = mu::alphabet(rng);
+    let mut m = mu::pat_len(rng, w, simple);
+    if simple && rng.chance(1, 25) {
+        m = w + 1 + rng.below(3); // must be refused
+    }
+    let p = mu::pattern(rng, &alpha, m);
+    let (amb, wild, mode) = match rng.below(4) {
+        0 => (vec![], vec![], "bld"),
+        1 => {
+            let (a, w) = mu::tables(rng, &alpha, &p);
+            (a, w, "bld")
+        }
+        _ => (vec![], vec![], "new"),
+    };
+    let mut extra: Vec<u8> = wild.clone();
+    for (_, e) in &amb {
+        extra.extend(e);
+    }
+    let nops = 1 + rng.below(5);
+    let mut ops = vec![];
+    for _ in 0..nops {
+        let k = mu::threshold(rng, m, simple);
+        let mut t = mu::text(rng, &alpha, &p, k);
+        sprinkle(rng, &mut t, &extra);
+        match rng.below(6) {
+            0 => ops.push(format!("d:{}", hex(&t))),
+            1 => ops.push(format!("b:{}", hex(&t))),
+            _ => ops.push(format!("f:{}:{}", k, hex(&t))),
+        }
+    }
+    out.push(format!(
+        "my {} {} {} {} {} {} {}",
+        if simple { "s" } else { "l" },
+        w,
+        mode,
+        hex(&p),
+        mu::show_amb(&amb),
+        hex(&wild),
+        ops.join("/")
+    ));
+}
+
+fn gen_uk(rng: &mut Rng, out: &mut Vec<String>) {
+    let alpha = mu::alphabet(rng);
+    let cost = if rng.chance(1, 2) {
+        "unit".to_string()
+    } else {
+        let s = 2 + rng.below(3);
+        let mut digits = String::new();
+        for a in 0..s {
+            for b in 0..s {
+                // mostly 0 on the diagonal, anything in 0..=3 elsewhere; sometimes a fully random table
+                let v = if a == b && rng.chance(4, 5) { 0 } else { rng.below(4) };
+                digits.push_str(&v.to_string());
+            }
+        }
+        format!("tab:{}:{}", s, digits)
+    };
+    let cap = rng.below(12);
+    let n = 1 + rng.below(4);
+    let mut ss = vec![];
+    for _ in 0..n {
+        let m = match rng.below(4) {
+            0 => 1 + rng.below(3),
+            1 => 1 + rng.below(30),
+            _ => 1 + rng.below(10),
+        };
+        let p = mu::pattern(rng, &alpha, m);
+        let k = mu::threshold(rng, m, false).min(1000);
+        let t = mu::text(rng, &alpha, &p, k);
+        ss.push(format!("{}:{}:{}", k, hex(&p), hex(&t)));
+    }
+    out.push(format!("uk {} {} {}", cost, cap, ss.join("/")));
+}
+
+fn gen_dist(rng: &mut Rng, out: &mut Vec<String>) {
+    let alpha = mu::alphabet(rng);
+    let f = *rng.pick(&["ham", "lev", "sham", "slev", "blev", "blev", "lev", "slev"]);
+    let la = match rng.below(5) {
+        0 => 0,
+        1 => 1 + rng.below(4),
+        2 => 30 + rng.below(70),
+        _ => rng.below(30),
+    };
+    let a = rng.seq(&alpha, la);
+    let b = if f == "ham" || f == "sham" {
+        if rng.chance(1, 12) {
+            // different lengths: must be refused
+            let lb = rng.below(la + 3);
+            rng.seq(&alpha, lb)
+        } else {
+            let mut b = a.clone();
+            for x in b.iter_mut() {
+                if rng.chance(1, 4) {
+                    *x = *rng.pick(&alpha);
+                }
+            }
+            b
+        }
+    } else {
+        match rng.below(4) {
+            0 => {
+                let lb = rng.below(40);
+                rng.seq(&alpha, lb)
+            }
+            _ => {
+                let rate = *rng.pick(&[0usize, 5, 15, 40]);
+                rng.mutate(&a, &alpha, rate)
+            }
+        }
+    };
+    let k = match rng.below(6) {
+        0 => 0,
+        1 => a.len().max(b.len()),
+        2 => a.len().max(b.len()) + 1 + rng.below(50),
+        3 => 1_000_000,
+        _ => rng.below(a.len().max(b.len()) + 2),
+    };
+    out.push(format!("dist {} {} {} {}", f, hex(&a), hex(&b), k));
+}
+
+fn enum_seqs(alpha: &[u8], maxlen: usize, minlen: usize) -> Vec<Vec<u8>> {
+    let mut out = vec![];
+    let mut cur: Vec<Vec<u8>> = vec![vec![]];
+    for l in 0..=maxlen {
+        if l >= minlen {
+            out.extend(cur.iter().cloned());
+        }
+        let mut nxt = vec![];
+        for s in &cur {
+            for &a in alpha {
+                let mut t = s.clone();
+                t.push(a);
+                nxt.push(t);
+            }
+        }
+        cur = nxt;
+    }
+    out
+}
+
+pub fn gen(tier: &str, rng: &mut Rng, out: &mut Vec<String>) {
+    let n = if tier == "thorough" { 60_000 } else { 5_000 };
+    for i in 0..n {
+        match i % 10 {
+            8 => gen_uk(rng, out),
+            9 => gen_dist(rng, out),
+            _ => gen_my(rng, out, i),
+        }
+    }
+    if tier == "thorough" {
+        // exhaustive small scope: all p (1..=4), t (0..=7) over {a,b}, k 0..=5; texts grouped per (p, k)
+        let ps = enum_seqs(b"ab", 4, 1);
+        let ts = enum_seqs(b"ab", 7, 0);
+        for p in &ps {
+            for k in 0..=5usize {
+                for (ci, chunk) in ts.chunks(32).enumerate() {
+                    let ops: Vec<String> = chunk.iter().map(|t| format!("f:{}:{}", k, hex(t))).collect();
+                    let uks: Vec<String> = chunk.iter().map(|t| format!("{}:{}:{}", k, hex(p), hex(t))).collect();
+                    match ci % 3 {
+                        0 => out.push(format!("my s 8 new {} - - {}", hex(p), ops.join("/"))),
+                        1 => out.push(format!("my l 8 new {} - - {}", hex(p), ops.join("/"))),
+                        _ => out.push(format!("my s 64 new {} - - {}", hex(p), ops.join("/"))),
+                    }
+                    if ci % 2 == 0 {
+                        out.push(format!("uk unit 3 {}", uks.join("/")));
+                    }
+                }
+            }
+        }
+    }
+}
+
+pub fn parse_cost(spec: &str) -> Result<Option<(usize, Vec<u32>)>, String> {
+    if spec == "unit" {
+        return Ok(None);
+    }
+    let parts: Vec<&str> = spec.split(':').collect();
+    if parts.len() != 3 || parts[0] != "tab" {
+        return Err("cost spec".into());
+    }
+    let s: usize = parse(parts[1])?;
+    if s == 0 || s > 16 {
+        return Err("cost size".into());
+    }
+    let tab: Vec<u32> = parts[2]
+        .chars()
+        .map(|c| c.to_digit(10).ok_or_else(|| "cost digit".to_string()))
+        .collect::<Result<_, _>>()?;
+    if tab.len() != s * s {
+        return Err("cost table size".into());
+    }
+    Ok(Some((s, tab)))
+}
+
+pub fn exec(toks: &[&str]) -> Result<String, String> {
+    if toks.is_empty() {
+        return Err("arity".into());
+    }
+    match toks[0] {
+        "my" => {
+            if toks.len() != 8 {
+                return Err("arity".into());
+            }
+            let simple = match toks[1] {
+                "s" => true,
+                "l" => false,
+                _ => return Err("impl".into()),
+            };
+            let w: usize = parse(toks[2])?;
+            let p = unhex(toks[4])?;
+            if p.is_empty() {
+                return Err("empty pattern".into());
+            }
+            let amb = mu::parse_amb(toks[5])?;
+            let wild = unhex(toks[6])?;
+            // parse all operations before touching the implementation
+            enum O {
+                F(usize, Vec<u8>),
+                D(Vec<u8>),
+                B(Vec<u8>),
+            }
+            let mut ops = vec![];
+            for o in split_ne(toks[7], '/') {
+                let f: Vec<&str> = o.split(':').collect();
+                match (f[0], f.len()) {
+                    ("f", 3) => {
+                        let k: usize = parse(f[1])?;
+                        if simple && k > 255 {
+                            return Err("k > 255 for the single-word version".into());
+                        }
+                        ops.push(O::F(k, unhex(f[2])?))
+                    }
+                    ("d", 2) => ops.push(O::D(unhex(f[1])?)),
+                    ("b", 2) => ops.push(O::B(unhex(f[1])?)),
+                    _ => return Err("op".into()),
+                }
+            }
+            let my = mu::build(simple, w, toks[3], &p, &amb, &wild)?;
+            let mut outs = vec![];
+            for o in &ops {
+                let r = catch_unwind(AssertUnwindSafe(|| match o {
+                    O::F(k, t) => my.fae(t, *k).map(|v| show_pairs(&v)),
+                    O::D(t) => Ok(my.dist(t).to_string()),
+                    O::B(t) => {
+                        let (j, d) = my.best(t);
+                        Ok(format!("{}:{}", j, d))
+                    }
+                }));
+                match r {
+                    Ok(Ok(s)) => outs.push(s),
+                    Ok(Err(e)) => return Err(e),
+                    Err(_) => outs.push("P".into()),
+                }
+            }
+            Ok(outs.join("/"))
+        }
+        "uk" => {
+            if toks.len() != 4 {
+                return Err("arity".into());
+            }
+            let cost = parse_cost(toks[1])?;
+            let cap: usize = parse(toks[2])?;
+            if cap > 10_000 {
+                return Err("cap".into());
+            }
+            let mut searches = vec![];
+            for s in split_ne(toks[3], '/') {
+                let f: Vec<&str> = s.split(':').collect();
+                if f.len() != 3 {
+                    return Err("search".into());
+                }
+                let k: usize = parse(f[0])?;
+                if k > 1_000_000 {
+                    return Err("k".into());
+                }
+                let p = unhex(f[1])?;
+                if p.is_empty() {
+                    return Err("empty pattern".into());
+                }
+                searches.push((k, p, unhex(f[2])?));
+            }
+            let mut outs = vec![];
+            match cost {
+                None => {
+                    let mut u = Ukkonen::with_capacity(cap, unit_cost);
+                    for (k, p, t) in &searches {
+                        let v: Vec<(usize, usize)> = u.find_all_end(p, t, *k).collect();
+                        outs.push(show_pairs(&v));
+                    }
+                }
+                Some((s, tab)) => {
+                    let f = move |a: u8, b: u8| tab[(a as usize % s) * s + (b as usize % s)];
+                    let mut u = Ukkonen::with_capacity(cap, f);
+                    for (k, p, t) in &searches {
+                        let v: Vec<(usize, usize)> = u.find_all_end(p, t, *k).collect();
+                        outs.push(show_pairs(&v));
+                    }
+                }
+            }
+            Ok(outs.join("/"))
+        }
+        "dist" => {
+            if toks.len() != 5 {
+                return Err("arity".into());
+            }
+            let a = unhex(toks[2])?;
+            let b = unhex(toks[3])?;
+            let k: u32 = parse(toks[4])?;
+            Ok(match toks[1] {
+                "ham" => distance::hamming(&a, &b).to_string(),
+                "sham" => distance::simd::hamming(&a, &b).to_string(),
+                "lev" => distance::levenshtein(&a, &b).to_string(),
+                "slev" => distance::simd::levenshtein(&a, &b).to_string(),
+                "blev" => match distance::simd::bounded_levenshtein(&a, &b, k) {
+                    Some(d) => d.to_string(),
+                    None => "none".into(),
+                },
+                _ => return Err("fn".into()),
+            })
+        }
+        _ => Err("op".into()),
+    }
 }
